@@ -15,7 +15,7 @@
 EXTENDS Integers, Sequences, FiniteSets, TLC
 
 Families == {"network", "dirnetwork", "geonetwork", "interacting", "resnetwork", "rp", "rn", "crp", "jrp",
-             "jrn", "climate", "climatedata", "surrogates", "visibility"}
+             "jrn", "climate", "climatedata", "surrogates", "visibility", "tsonis", "hilbert", "isrn"}
 
 Init0(f) ==
   IF f \in {"network", "dirnetwork", "interacting", "visibility"} THEN [A |-> 1, W |-> 0, LA |-> 0]
@@ -24,6 +24,9 @@ Init0(f) ==
   ELSE IF f \in {"rp", "rn"} THEN [MODE |-> "threshold", P |-> 1]
   ELSE IF f \in {"crp", "jrp", "jrn"} THEN [MODE |-> "threshold", P |-> 1]
   ELSE IF f = "climate" THEN [MODE |-> "threshold", P |-> 1, NL |-> 0]
+  ELSE IF f = "tsonis" THEN [MODE |-> "threshold", P |-> 1, NL |-> 0, WO |-> 0]
+  ELSE IF f = "hilbert" THEN [MODE |-> "threshold", P |-> 1, NL |-> 0, DIR |-> 1]
+  ELSE IF f = "isrn" THEN [MODE |-> "threshold", P |-> 1]
   ELSE IF f = "climatedata" THEN [WIN |-> 0]
   ELSE [EMB |-> 0, NORM |-> 0]
 
@@ -35,6 +38,8 @@ SameMut == {<<"adjacency~same", 1>>, <<"adjacency~same", 2>>, <<"node_weights~sa
             <<"node_weights~same", 2>>, <<"set_link_attribute~same", 1>>, <<"set_link_attribute~same", 2>>}
 RpMut == {<<"set_fixed_threshold", 1>>, <<"set_fixed_threshold", 2>>,
           <<"set_fixed_recurrence_rate", 1>>, <<"set_fixed_recurrence_rate", 2>>}
+ClimMut == {<<"set_threshold", 1>>, <<"set_threshold", 2>>, <<"set_link_density", 1>>,
+            <<"set_link_density", 2>>, <<"set_non_local", 0>>, <<"set_non_local", 1>>}
 Alphabet(f) ==
   IF f \in {"network", "dirnetwork"} THEN NetMut \cup SameMut
   ELSE IF f = "interacting" THEN NetMut
@@ -50,6 +55,10 @@ Alphabet(f) ==
                                               <<"set_adaptive_neighborhood_size", 2>>}
   ELSE IF f \in {"jrp", "jrn"} THEN RpMut \cup {<<"set_fixed_threshold_std", 1>>, <<"set_fixed_threshold_std", 2>>}
   ELSE IF f = "crp" THEN RpMut
+  ELSE IF f = "isrn" THEN RpMut
+  \* data-driven climate networks: the similarity itself is recomputed by set_winter_only / set_directed
+  ELSE IF f = "tsonis" THEN ClimMut \cup {<<"set_winter_only", 0>>, <<"set_winter_only", 1>>}
+  ELSE IF f = "hilbert" THEN ClimMut \cup {<<"set_directed", 0>>, <<"set_directed", 1>>}
   ELSE IF f = "climate" THEN {<<"set_threshold", 1>>, <<"set_threshold", 2>>, <<"set_link_density", 1>>,
                               <<"set_link_density", 2>>, <<"set_non_local", 0>>, <<"set_non_local", 1>>}
   ELSE IF f = "climatedata" THEN {<<"set_window", 1>>, <<"set_window", 2>>, <<"set_global_window", 0>>}
@@ -73,6 +82,8 @@ Apply(f, a, m) ==
   ELSE IF name = "set_threshold" THEN [a EXCEPT !.MODE = "threshold", !.P = v]
   ELSE IF name = "set_link_density" THEN [a EXCEPT !.MODE = "link_density", !.P = v]
   ELSE IF name = "set_non_local" THEN [a EXCEPT !.NL = v]
+  ELSE IF name = "set_winter_only" THEN [a EXCEPT !.WO = v]
+  ELSE IF name = "set_directed" THEN [a EXCEPT !.DIR = v]
   ELSE IF name = "set_window" THEN [a EXCEPT !.WIN = v]
   ELSE IF name = "set_global_window" THEN [a EXCEPT !.WIN = 0]
   ELSE IF name = "embedding" THEN [a EXCEPT !.EMB = v]
@@ -83,7 +94,11 @@ Apply(f, a, m) ==
 CONSTANTS Family, Depth
 VARIABLES abs, hist
 Init == abs = Init0(Family) /\ hist = <<>>
-Mutate(m) == Len(hist) < Depth /\ abs' = Apply(Family, abs, m) /\ hist' = Append(hist, m)
+\* data-driven climate networks keep the THRESHOLD when the similarity is recomputed (a prescribed density
+\* is turned into a threshold when it is set), so the similarity-changing setters are driven from
+\* threshold mode only - there the abstract state determines the network
+Enabled(f, a, m) == (f \in {"tsonis", "hilbert"} /\ m[1] \in {"set_winter_only", "set_directed"}) => a.MODE = "threshold"
+Mutate(m) == Len(hist) < Depth /\ Enabled(Family, abs, m) /\ abs' = Apply(Family, abs, m) /\ hist' = Append(hist, m)
 Next == \E m \in Alphabet(Family) : Mutate(m)
 \* every reachable history is a behaviour to be replayed (printed once per distinct history)
 PrintHist == PrintT(<<"H", Family, hist>>)
